@@ -34,6 +34,32 @@ class Violation(Exception):
         self.sig = dict(sig or {})
 
 
+class StepLimit(BaseException):
+    """Raised inside library code by `bounded` when the step budget is used up (BaseException: not swallowed)."""
+
+
+def bounded(fn, max_lines, *a, **kw):
+    """Liveness with a deterministic clock: run fn under sys.settrace and count executed source lines ("steps").
+    Returns (result, steps); raises StepLimit from inside fn once max_lines is exceeded.  Unlike a wall-clock
+    watchdog the verdict does not depend on the machine or its load."""
+    import sys
+    n = [0]
+
+    def tr(frame, event, arg):
+        if event == "line":
+            n[0] += 1
+            if n[0] > max_lines:
+                raise StepLimit()
+        return tr
+
+    old = sys.gettrace()
+    sys.settrace(tr)
+    try:
+        return fn(*a, **kw), n[0]
+    finally:
+        sys.settrace(old)
+
+
 class RunTimeout(BaseException):
     """Raised by the per-run watchdog; a BaseException so that no `except Exception` in an oracle or in the
     library swallows it.  The run is counted as skipped."""
